@@ -4,20 +4,24 @@ from . import common, toposort_native
 
 class TopoCheck:
     CONTRACT_MODULES = []
-    LEVEL = "exploration"
+    LEVEL = "other"
     PROP = "C14"
-    NO_DEDUCTIVE = True
     TRUSTED = ["the DFS cycle oracle and the contract evaluator of checks/toposort_native.py", "the host C compiler and cffi for the 'emitted source compiles' clause"]
     ASSUMPTIONS = [
         "bounded: all source dicts over <= 3 nodes and a slice of the 4-node ones; eight real class graphs x several root orders; not a proof",
-        "the deductive obligations planned for topological_sort (no-dup invariant over a symbolic dict/list model) are not built in this version",
+        "deductive part: only the 'emitted exactly once' clause (no duplicates in the result of topological_sort, any graph); 'before first use', "
+        "'cycles are reported' and 'the source compiles' need edge-multiset counting / a compiler and are decided by the bounded part",
+        "python semantics assumed in the proof: a filtering list comprehension yields an order-preserving subsequence; dict keys are pairwise distinct",
     ]
-    EXPLANATION = ("Run-time evaluation of the contract of topological_sort (no duplicate, complete, parents first, has_cycle iff cyclic) on the real "
+    EXPLANATION = ("Proved on the real topological_sort for every input graph (symbolic dict/list model, four loop invariants): the result never "
+                   "lists a node twice when no cycle is reported. Bounded: run-time evaluation of the contract of topological_sort (no duplicate, complete, parents first, has_cycle iff cyclic) on the real "
                    "function over an exhaustively enumerated small scope, and of sort_classes/add_kernels on real classes of every kind including "
                    "fieldless structs with dependents, _depends_on and cycles. Bounded stand-in, labelled as such.")
 
     def targets(self):
-        return []
+        from . import toposort_vc
+
+        return toposort_vc.targets()
 
     def bounded(self, tier, seed, focus):
         return toposort_native.run(tier, seed)
